@@ -844,6 +844,8 @@ lemma("index-order-is-invariant-under-the-counter-start", _epoch_shift)
 #                hashed by address (id) is not a function of the model
 #   thread-schedule   ThreadPoolExecutor / ProcessPoolExecutor / as_completed
 #   unseeded-rng      random.Random() / numpy default_rng() / RandomState() called without any argument
+#   process-memo      @functools.lru_cache / @functools.cache on a function whose key parameters are not all annotated
+#                     int/str/bytes/bool: an interpreter-wide table that earlier simulations fill and later ones read
 # Set-typed expressions are inferred from annotations (`set[...]`, `dict[..., set[...]]`, parameters, returns,
 # properties) and from initialisers (`set()`, `{..}`, set comprehension, `defaultdict(set)`); `self.X` is resolved in the
 # class (and its library base classes), other receivers by attribute name across the library (over-approximation).
@@ -989,6 +991,21 @@ class _ModuleScan(_ast.NodeVisitor):
 
     def _func(self, n):
         self.stack.append(n.name)
+        # process-memo: functools.lru_cache / functools.cache keep a table for the life of the interpreter, shared by
+        # every simulation, looked up by == / hash of the arguments.  Unless every key parameter is annotated with one of
+        # the exact types int/str/bytes/bool (for which equal keys are indistinguishable to the function), an entry left
+        # by EARLIER activity can answer for an equal-but-different argument (1 == 1.0 == True, (1, 5) == (1, 5.0),
+        # Decimal(2) == 2.0): the result then depends on what ran before.
+        for d in n.decorator_list:
+            f = d.func if isinstance(d, _ast.Call) else d
+            name = f.attr if isinstance(f, _ast.Attribute) else (f.id if isinstance(f, _ast.Name) else "")
+            if name in ("lru_cache", "cache"):
+                params = [a for a in n.args.posonlyargs + n.args.args + n.args.kwonlyargs if a.arg not in ("self", "cls")]
+                exact = all(a.annotation is not None and _ast.unparse(a.annotation).strip("'\"") in ("int", "str", "bytes", "bool")
+                            for a in params)
+                if not exact or n.args.vararg or n.args.kwarg:
+                    self.site("process-memo", n, "memo table shared by all simulations, keyed by == of "
+                              + ", ".join(a.arg for a in params))
         sc = {}
         for a in n.args.posonlyargs + n.args.args + n.args.kwonlyargs:
             k = _ann_kind(a.annotation) if a.annotation is not None else None
